@@ -916,7 +916,7 @@ class ValueNode(SyntaxNodeBase):
                 value=value, **{**self._formatter, "precision": precision}
             )
             temp = temp.replace("e", self._formatter["divider"])
-            temp_match = self._SCIENTIFIC_FINDER.match(temp)
+            temp_match = self._SCIENTIFIC_FINDER.search(temp)
             exponent = temp_match.group("exponent")
             start, end = temp_match.span("exponent")
             new_exp_temp = "{value:0={zero_padding}d}".format(
